@@ -407,6 +407,65 @@ def c09_ignore_scopes(sel: int, form: int) -> bool:
     return ok
 
 
+UNIT_TEXTS = [
+    "namespace proj { namespace detail { class A { A(); }; } class B { B(); void run(const proj::detail::A& a) const; }; }",
+    "namespace proj { namespace detail { double f(int x); enum E { X, Y }; } }",
+    "namespace other { class C { C(); void serialize() const; }; namespace detail { class D { D(); }; } }",
+    "class G { G(); }; namespace proj { enum Mode { On, Off }; namespace detail { namespace deep { class H { H(); }; } } }",
+    "namespace proj { template<T = {double}> class Tm { Tm(T t); void serialize() const; }; } namespace other { void g(); }",
+]
+NUT = len(UNIT_TEXTS)
+UNIT_TOPS = [[''], ['', 'proj'], ['', 'proj', 'detail']]
+
+
+def scope_problems(body):
+    """registration scopes of one module body: declared once, before use"""
+    problems, declared = [], {"m_"}
+    for e in readers.parse_pybind(body):
+        if e["ent"] == "submodule":
+            if e["var"] in declared:
+                problems.append("submodule variable %s declared twice" % e["var"])
+            if e["parent"] not in declared:
+                problems.append("submodule %s created in undeclared %s" % (e["var"], e["parent"]))
+            declared.add(e["var"])
+        elif e["ent"] in ("class", "enum", "attr"):
+            if e["module"] not in declared:
+                problems.append("%s %s registered on %s, which this translation unit never declares" % (e["ent"], e["name"], e["module"]))
+            if e["ent"] == "class" and e.get("instance"):
+                declared.add(e["instance"])
+        elif e["ent"] == "chain":
+            if e["target"] not in declared:
+                problems.append("functions registered on %s, which this translation unit never declares" % e["target"])
+        elif e["ent"] == "other":
+            problems.append("unrecognised statement %r" % e["stmt"][:80])
+    return problems
+
+
+def c09_second_unit(a: int, b: int, boost: int, top: int) -> bool:
+    """
+    One wrapper object producing two translation units in a row (as `wrap()` does for main + sub-modules): the SECOND
+    unit declares every module variable it uses, once — whatever namespaces the first unit created — and is balanced.
+    pre: 0 <= a < NUT and 0 <= b < NUT and 0 <= boost <= 1 and 0 <= top < len(UNIT_TOPS)
+    post: _
+    """
+    a, b, boost, top = pick(a, 0, NUT), pick(b, 0, NUT), pick(boost, 0, 2), pick(top, 0, len(UNIT_TOPS))
+    with concrete():
+        from gtwrap.pybind_wrapper import PybindWrapper
+        w = PybindWrapper(module_name="mod", top_module_namespaces=list(UNIT_TOPS[top]), use_boost_serialization=bool(boost),
+                          ignore_classes=[''], module_template=pipe.PYBIND_TPL)
+        first = pipe.pybind(UNIT_TEXTS[a], wrapper=w)
+        second = pipe.pybind(UNIT_TEXTS[b], wrapper=w)
+        problems = []
+        for label, out in (("first", first), ("second", second)):
+            body = out.split("//BEGIN-WRAPPED\n", 1)[1].split("\n//END-WRAPPED", 1)[0]
+            if not readers.balanced(out):
+                problems.append("%s unit is unbalanced" % label)
+            problems += ["%s unit: %s" % (label, x) for x in scope_problems(body)]
+        ok = not problems or _fail(first_text=UNIT_TEXTS[a], second_text=UNIT_TEXTS[b], boost=boost, top=UNIT_TOPS[top], problems=problems[:5])
+    reached({"a": a, "b": b, "boost": boost, "top": top} if (not ok or (a == 0 and b == 1)) else None)
+    return ok
+
+
 def conds(tier):
     q = tier == "quick"
     t = (lambda x, y: x) if q else (lambda x, y: y)
@@ -430,6 +489,8 @@ def conds(tier):
                 bounds="15 subsets of 4 serializable classes (plain, 2- and 3-parameter templates, nested template argument) x namespace depth"),
         xh.Cond(M, "c09_ignore_scopes", t(300, 1200), kind=sb, examples=["sel=8, form=1", "sel=40, form=2", "sel=127, form=0"],
                 bounds="128 subsets of 7 classes on the ignore list x %s" % ("3 spellings" if not q else "spelling derived (shifted against C03's derivation)")),
+        xh.Cond(M, "c09_second_unit", t(200, 600), kind=sb, examples=["a=0, b=1, boost=0, top=0", "a=3, b=0, boost=1, top=1", "a=2, b=2, boost=0, top=2"],
+                bounds="%d x %d texts with overlapping namespace names wrapped in sequence by one wrapper x serialization x 3 top namespaces" % (NUT, NUT)),
         xh.Cond(M, "c09_variables", t(300, 900), kind=sb, examples=["d=1, t=0, depth=1, topdepth=0", "d=3, t=2, depth=3, topdepth=2", "d=0, t=4, depth=2, topdepth=1"],
                 bounds="%d initialiser shapes x %d types x namespace depth 0-3 x top-namespace depth" % (len(VAR_DEFAULTS), len(VAR_TYPES))),
     ]
